@@ -60,6 +60,33 @@ def determinism(props=None, n=24):
     return 0 if bad == 0 else 2
 
 
+def pool_determinism(props=None, runs=400):
+    """The whole check (fork pool, aggregation) executed at two worker counts and two PYTHONHASHSEED values must produce
+    the same batch digest (= hash of every run's event digest in index order)."""
+    from .runner import SCENARIOS
+    props = props or sorted(SCENARIOS)
+    bad = 0
+    for p in props:
+        digs = []
+        for workers, hs in ((4, 0), (16, 99)):
+            scratch = tempfile.mkdtemp(prefix="gemsim_det_")
+            env = dict(os.environ, PYTHONHASHSEED=str(hs), GEMSIM_SCRATCH=scratch)
+            r = subprocess.run([sys.executable, CLI, "check", p, "--runs", str(runs), "--workers", str(workers), "--seed", "777",
+                                "--no-shrink"], env=env, capture_output=True, text=True, timeout=3000)
+            try:
+                ev = json.load(open(os.path.join(scratch, "evidence", f"{p}.json")))
+                digs.append(ev["coverage"]["batch_digest"])
+            except Exception as e:
+                digs.append(f"error:{e}:{r.stdout[-300:]}{r.stderr[-300:]}")
+            shutil.rmtree(scratch, ignore_errors=True)
+        same = len(set(digs)) == 1 and not digs[0].startswith("error")
+        bad += 0 if same else 1
+        print(f"pool determinism {p}: {runs} runs, workers 4 vs 16, PYTHONHASHSEED 0 vs 99: identical={same}")
+        if not same:
+            print("  ", digs)
+    return 0 if bad == 0 else 2
+
+
 def make_mutant_copy(edits):
     """Copy /repo/gemclus to a temp dir and apply (relative file, old, new) string edits.  Returns the temp root."""
     repo = os.environ.get("GEMSIM_REPO", "/repo")
